@@ -145,13 +145,14 @@ def monitor(ctx, extended=False):
                         except Exception as e:   # noqa
                             ctx.violation(f'raised {type(e).__name__}: {e}', {'args': list(a)}, key='raised')
     # vls = None / 0 are legal for an argument documented as unused
-    for v in (None, 0, 0.0):
+    import numpy as _np
+    for v in (None, 0, 0.0, -1.0, float('nan'), [0.5, 1.0, 2.0], {'unused': 1}, 'unused', _np.linspace(0.1, 10.0, 5), _np.float64(2.5)):
         a = ldv_point(ctx.rng)
         ctx.count('evaluations')
         try:
             r = F.LDV(v, *a[1:])
             if not same_float(r, F.LDV(1.0, *a[1:])):
-                ctx.violation(f'LDV(vls={v!r}) differs from LDV(vls=1.0)', {'args': list(a), 'vls': v}, key='dummy')
+                ctx.violation(f'LDV(vls={v!r}) differs from LDV(vls=1.0)', {'args': list(a), 'vls': repr(v)}, key='dummy')
         except Exception as e:   # noqa
             ctx.violation(f'LDV(vls={v!r}) raised {type(e).__name__}: {e}', {'args': list(a), 'vls': repr(v)}, key='dummy')
     ctx.stats['worst_relative_distance_to_converged'] = worst
